@@ -41,9 +41,9 @@ def impl_outcome(case):
     return 'macro-none' if o[1] is None else 'macro'
 
 
-def make_event(rng):
+def make_event(rng, names=None):
     from sismic.model import Event
-    name = rng.choice(sx.ALPHABET)
+    name = rng.choice(names) if names and rng.random() < 0.75 else rng.choice(sx.ALPHABET)
     r = rng.random()
     if r < 0.25:
         return Event(name, delay=rng.choice([-2, 1, 2, 3, 7]))
@@ -145,6 +145,7 @@ def run_scenario(rng, chart, spec, cases, stats, chart_key):
     holder['sc'] = sc
     sc.interp._evaluator._context['g'] = g0
     n = rng.randint(*spec.n_ops)
+    used = sorted({t.event for t in chart._transitions if t.event})
     dead = False
     for k in range(n):
         r = rng.random()
@@ -164,7 +165,7 @@ def run_scenario(rng, chart, spec, cases, stats, chart_key):
             sc.detach(rng.randrange(len(sc.listeners)))
             continue
         if r < spec.p_clock + spec.p_bits + spec.p_queue:
-            op = ('queue', make_event(rng))
+            op = ('queue', make_event(rng, used))
         else:
             op = ('exec',)
         case = sc.step_case(op)
